@@ -2779,6 +2779,52 @@ theorem tot_renum_cells (M H : ι → ι → ℝ) (σ : Equiv.Perm ι) (h : ∀ 
 
 end renumber
 
+section diagcount
+open Finset
+variable {ι : Type} [Fintype ι] [DecidableEq ι]
+
+/-! ### counts depend on the support only; making the whole diagonal non-zero adds one to every row and column count
+(the SMT spec function `cnt1(r, n)` is `cnt r`; the row count of row `x` of `M` is `cnt (M x)`) -/
+
+/-- matrices with the same support have the same column counts -/
+theorem ccnt_congr_support (A B : ι → ι → ℝ) (h : ∀ a b, A a b ≠ 0 ↔ B a b ≠ 0) (y : ι) :
+    ccnt A y = ccnt B y := by
+  unfold ccnt
+  congr 1
+  exact Finset.filter_congr (fun x _ => h x y)
+
+/-- matrices with the same support have the same row counts (`cnt1(A[x], n) == cnt1(B[x], n)`) -/
+theorem cnt1_congr_support (A B : ι → ι → ℝ) (h : ∀ a b, A a b ≠ 0 ↔ B a b ≠ 0) (x : ι) :
+    cnt (A x) = cnt (B x) := by
+  unfold cnt
+  congr 1
+  exact Finset.filter_congr (fun y _ => h x y)
+
+/-- `B` is `A` (zero diagonal) with every diagonal entry made non-zero, same support off the diagonal: every column gains exactly one
+non-zero entry -/
+theorem ccnt_diag_set (A B : ι → ι → ℝ) (hoff : ∀ a b, a ≠ b → (B a b ≠ 0 ↔ A a b ≠ 0)) (hA : ∀ a, A a a = 0)
+    (hB : ∀ a, B a a ≠ 0) (y : ι) : ccnt B y = ccnt A y + 1 := by
+  unfold ccnt
+  have hins : (Finset.univ.filter (fun x => B x y ≠ 0)) = insert y (Finset.univ.filter (fun x => A x y ≠ 0)) := by
+    ext x
+    simp only [Finset.mem_filter, Finset.mem_univ, true_and, Finset.mem_insert]
+    by_cases hxy : x = y
+    · subst hxy
+      exact ⟨fun _ => Or.inl rfl, fun _ => hB x⟩
+    · rw [hoff x y hxy]
+      exact ⟨fun hx => Or.inr hx, fun hx => hx.resolve_left hxy⟩
+  have hnot : y ∉ Finset.univ.filter (fun x => A x y ≠ 0) := by
+    simp [hA y]
+  rw [hins, Finset.card_insert_of_notMem hnot]
+
+/-- the same for rows (`cnt1(B[x], n) == cnt1(A[x], n) + 1`) -/
+theorem cnt1_diag_set (A B : ι → ι → ℝ) (hoff : ∀ a b, a ≠ b → (B a b ≠ 0 ↔ A a b ≠ 0)) (hA : ∀ a, A a a = 0)
+    (hB : ∀ a, B a a ≠ 0) (x : ι) : cnt (B x) = cnt (A x) + 1 := by
+  have h := ccnt_diag_set (fun a b => A b a) (fun a b => B b a) (fun a b hab => hoff b a (Ne.symm hab)) hA hB x
+  simpa [ccnt, cnt] using h
+
+end diagcount
+
 -- (tenth batch, `section dijkstra`: definitions `wwalk`, `reachw`, `wd`; `wd_self`, `wd_nonneg`, `wd_le`, `le_wd`, `wd_approx`, `wd_attained`
 --  (the infimum is a minimum), `wd_relax`, `wd_triangle`, `wwalk_cross(_wd)`, `dijkstra_lower`, `dijkstra_step`, `dijkstra_step_le`,
 --  `dijkstra_step_inv`, `dijkstra_step_T`, `dijkstra_init`, `dijkstra_exhausted`, `dijkstra_smt`, `wd_smt`, `reachw_iff_sdist`, `reachw_iff_walk(_pos)`, `wd_pos`, `wd_pred`:
@@ -2791,5 +2837,6 @@ end renumber
 -- (thirteenth batch, `section pointwise`: `matrix_ext_cells`, `wd_congr_cells`, `sdist_congr_cells`, `tot_congr_cells`: all proved.)
 -- (fourteenth batch, `section renumber`: `walk_renum`, `sdist_renum`, `wwalk_renum`, `reachw_renum`, `wd_renum`, `tot_renum` and the cell forms
 --  `sdist_renum_cells`, `wd_renum_cells`, `tot_renum_cells`: all proved.)
+-- (fifteenth batch, `section diagcount`: `ccnt_congr_support`, `cnt1_congr_support`, `ccnt_diag_set`, `cnt1_diag_set`: all proved.)
 
 end VerifLemmas
